@@ -81,6 +81,14 @@ fn mk_key(i: usize, k3name: &str) -> Key {
         // two labels as an unordered pair), so one storage
         5 => Key::from_parts("z", vec![Label::new("zone", "a"), Label::new("zone", "b")]),
         6 => Key::from_parts("z", vec![Label::new("zone", "b"), Label::new("zone", "a")]),
+        // equal to k1 once more: a CLONE of the static key taken before its hash was ever computed (what a caller does
+        // that keeps a copy of a macro's key), and a clone taken after
+        7 => Key::from_static_parts("m", &L_AB).clone(),
+        8 => {
+            let k = Key::from_static_parts("m", &L_AB);
+            let _ = k.get_hash();
+            k.clone()
+        }
         // equal to k1 again, derived from an already hashed base key
         4 => Key::from_parts("m", vec![Label::new("a", "1")]).with_extra_labels(vec![Label::new("b", "2")]),
         _ => Key::from_name(k3name.to_string()),
@@ -105,13 +113,13 @@ fn find_k3() -> String {
 fn alphabet() -> Vec<Op> {
     use Kind::*;
     let mut a = Vec::new();
-    for (k, keys) in [(C, vec![0, 1, 2, 3, 4]), (G, vec![0, 2]), (H, vec![1])] {
+    for (k, keys) in [(C, vec![0, 1, 2, 3, 4, 7]), (G, vec![0, 2, 8]), (H, vec![1])] {
         for i in keys {
             a.push(Op::Goc(k, i));
         }
     }
     a.extend([Op::GocPanic(C, 3), Op::GocPanic(G, 0), Op::GocPanic(H, 1)]);
-    a.extend([Op::Get(C, 1), Op::Get(C, 2), Op::Get(G, 0), Op::Get(H, 0)]);
+    a.extend([Op::Get(C, 1), Op::Get(C, 2), Op::Get(C, 7), Op::Get(G, 0), Op::Get(H, 0)]);
     a.extend([Op::Del(C, 0), Op::Del(C, 4), Op::Del(C, 3), Op::Del(G, 1), Op::Del(H, 0)]);
     a.extend([Op::Retain(C, Pred::KeepK1), Op::Retain(C, Pred::DropAll), Op::Retain(G, Pred::DropAll), Op::Retain(H, Pred::KeepK1)]);
     a.push(Op::Clear);
@@ -528,7 +536,7 @@ fn main() {
     driver::main(CheckDef {
         prop: "C06",
         level: "model_checking",
-        rule: "E3: every sequence up to the stated depth over 31 operations (get_or_create — also with an op closure that panics while the shard write lock is held, caught — / get / delete / retain / clear / visit / get_*_handles over kinds x keys {k1, k1' = equal key built statically with permuted labels, k2, k3 = same shard}) on a fresh real Registry with a construction-counting Storage, compared after every step with a map reference (results, storage identity, construction count, both listings); shard counts 1, 2, 16 via CPU affinity; E1: all SC interleavings (pb-bounded) of 3 threads x 2 ops, brute-force linearizability against the same reference; distinct = distinct reference states / outcomes",
+        rule: "E3: every sequence up to the stated depth over 34 operations (get_or_create — also with an op closure that panics while the shard write lock is held, caught — / get / delete / retain / clear / visit / get_*_handles over kinds x keys {k1, k1' = equal key built statically with permuted labels, clones of that static key taken before / after its hash was first computed, k2, k3 = same shard}) on a fresh real Registry with a construction-counting Storage, compared after every step with a map reference (results, storage identity, construction count, both listings); shard counts 1, 2, 16 via CPU affinity; E1: all SC interleavings (pb-bounded) of 3 threads x 2 ops, brute-force linearizability against the same reference; distinct = distinct reference states / outcomes",
         assumptions: &["E1: sequential consistency; lock release is not a scheduling point of its own (the next operation of the releasing thread is)", "keys with pairwise distinct label names"],
         parts,
         run,
